@@ -114,4 +114,380 @@ theorem lcp_mismatch : ∀ (a b : Key), lcp a b < a.length → lcp a b < b.lengt
     · simp only [e, if_false]
       exact ⟨x, y, as, bs, rfl, rfl, e⟩
 
+
+/-! ### scanL: the first child whose first symbol is ≥ the key's first symbol -/
+
+/-- child `x` exists and its key starts with `c0` -/
+def Hd (lh : LHeap) (x c0 : Nat) : Prop := ∃ ch ct, lh[x]? = some ch ∧ ch.key = c0 :: ct
+
+def HdLt (lh : LHeap) (k0 x : Nat) : Prop := ∃ c0, Hd lh x c0 ∧ c0 < k0
+
+theorem scanL_cons_lt {lh : LHeap} {k0 x : Nat} (kt : Key) (cs : List Nat) (i : Nat) (h : HdLt lh k0 x) :
+    scanL lh (k0 :: kt) (x :: cs) i = scanL lh (k0 :: kt) cs (i + 1) := by
+  obtain ⟨c0, ⟨ch, ct, h1, h2⟩, h3⟩ := h
+  have hne : c0 ≠ k0 := by omega
+  have hnl : ¬ k0 < c0 := by omega
+  rw [scanL, h1]
+  simp only [h2, lcp_zero_iff.mpr hne, if_true, hnl, if_false]
+
+theorem scanL_cons_eq {lh : LHeap} {k0 x : Nat} {ch : LN} {ct : Key} (kt : Key) (cs : List Nat) (i : Nat)
+    (h1 : lh[x]? = some ch) (h2 : ch.key = k0 :: ct) :
+    scanL lh (k0 :: kt) (x :: cs) i = .at i x (lcp ch.key (k0 :: kt)) ∧ 0 < lcp ch.key (k0 :: kt) := by
+  have hpos : lcp ch.key (k0 :: kt) ≠ 0 := by
+    rw [h2]; unfold lcp; simp
+  refine ⟨?_, by omega⟩
+  rw [scanL, h1]
+  simp only [hpos, if_false]
+
+theorem scanL_cons_gt {lh : LHeap} {k0 x c0 : Nat} {ch : LN} {ct : Key} (kt : Key) (cs : List Nat) (i : Nat)
+    (h1 : lh[x]? = some ch) (h2 : ch.key = c0 :: ct) (h3 : k0 < c0) :
+    scanL lh (k0 :: kt) (x :: cs) i = .before i := by
+  have hne : c0 ≠ k0 := by omega
+  rw [scanL, h1]
+  simp only [h2, lcp_zero_iff.mpr hne, if_true, h3]
+
+theorem scanL_pass {lh : LHeap} {k0 : Nat} (kt : Key) : ∀ (pre rest : List Nat) (i : Nat),
+    (∀ x ∈ pre, HdLt lh k0 x) → scanL lh (k0 :: kt) (pre ++ rest) i = scanL lh (k0 :: kt) rest (i + pre.length)
+  | [], rest, i, _ => by simp
+  | x :: pre, rest, i, h => by
+    rw [List.cons_append, scanL_cons_lt kt _ i (h x List.mem_cons_self),
+      scanL_pass kt pre rest (i + 1) (fun y hy => h y (List.mem_cons_of_mem _ hy))]
+    simp only [List.length_cons]
+    congr 1; omega
+
+theorem scanL_all_lt {lh : LHeap} {k0 : Nat} (kt : Key) (ks : List Nat) (i : Nat)
+    (h : ∀ x ∈ ks, HdLt lh k0 x) : scanL lh (k0 :: kt) ks i = .none := by
+  have := scanL_pass kt ks [] i h
+  rw [List.append_nil] at this
+  rw [this]; rfl
+
+/-- every child exists and has a nonempty key -/
+def KidsValid (lh : LHeap) (ks : List Nat) : Prop := ∀ x ∈ ks, ∃ c0, Hd lh x c0
+
+inductive ScanRes (lh : LHeap) (k0 : Nat) (kt : Key) (ks : List Nat) (i : Nat) : Prop where
+  | none (h : ∀ x ∈ ks, HdLt lh k0 x) (e : scanL lh (k0 :: kt) ks i = .none)
+  | hit (pre : List Nat) (c : Nat) (post : List Nat) (ch : LN) (ct : Key) (hk : ks = pre ++ c :: post)
+      (hp : ∀ x ∈ pre, HdLt lh k0 x) (h1 : lh[c]? = some ch) (h2 : ch.key = k0 :: ct)
+      (e : scanL lh (k0 :: kt) ks i = .at (i + pre.length) c (lcp ch.key (k0 :: kt)))
+  | before (pre : List Nat) (c : Nat) (post : List Nat) (ch : LN) (c0 : Nat) (ct : Key) (hk : ks = pre ++ c :: post)
+      (hp : ∀ x ∈ pre, HdLt lh k0 x) (h1 : lh[c]? = some ch) (h2 : ch.key = c0 :: ct) (h3 : k0 < c0)
+      (e : scanL lh (k0 :: kt) ks i = .before (i + pre.length))
+
+theorem scanL_cases {lh : LHeap} (k0 : Nat) (kt : Key) : ∀ (ks : List Nat) (i : Nat), KidsValid lh ks →
+    ScanRes lh k0 kt ks i
+  | [], i, _ => .none (fun _ h => by cases h) rfl
+  | x :: cs, i, hv => by
+    obtain ⟨c0, ch, ct, h1, h2⟩ := hv x List.mem_cons_self
+    have hv' : KidsValid lh cs := fun y hy => hv y (List.mem_cons_of_mem _ hy)
+    by_cases e1 : c0 < k0
+    · have hx : HdLt lh k0 x := ⟨c0, ⟨ch, ct, h1, h2⟩, e1⟩
+      have hs := scanL_cons_lt kt cs i hx
+      cases scanL_cases k0 kt cs (i + 1) hv' with
+      | none h e => exact .none (fun y hy => by
+          rcases List.mem_cons.mp hy with rfl | hy
+          · exact hx
+          · exact h y hy) (hs.trans e)
+      | hit pre c post ch' ct' hk hp g1 g2 e =>
+        refine .hit (x :: pre) c post ch' ct' (by rw [hk]; rfl) (fun y hy => by
+          rcases List.mem_cons.mp hy with rfl | hy
+          · exact hx
+          · exact hp y hy) g1 g2 ?_
+        rw [hs, e]; simp only [List.length_cons]; congr 1; omega
+      | before pre c post ch' c0' ct' hk hp g1 g2 g3 e =>
+        refine .before (x :: pre) c post ch' c0' ct' (by rw [hk]; rfl) (fun y hy => by
+          rcases List.mem_cons.mp hy with rfl | hy
+          · exact hx
+          · exact hp y hy) g1 g2 g3 ?_
+        rw [hs, e]; simp only [List.length_cons]; congr 1; omega
+    · by_cases e2 : c0 = k0
+      · subst e2
+        exact .hit [] x cs ch ct rfl (fun _ h => by cases h) h1 h2 (scanL_cons_eq kt cs i h1 h2).1
+      · exact .before [] x cs ch c0 ct rfl (fun _ h => by cases h) h1 h2 (by omega) (scanL_cons_gt kt cs i h1 h2 (by omega))
+
+/-- `scanL` only looks at the children's keys -/
+theorem scanL_congr {lh lh' : LHeap} (key : Key) : ∀ (ks : List Nat) (i : Nat),
+    (∀ x ∈ ks, (lh'[x]?).map (·.key) = (lh[x]?).map (·.key)) → scanL lh' key ks i = scanL lh key ks i
+  | [], _, _ => rfl
+  | x :: cs, i, h => by
+    have hx := h x List.mem_cons_self
+    have ih := scanL_congr key cs (i + 1) (fun y hy => h y (List.mem_cons_of_mem _ hy))
+    unfold scanL
+    cases h1 : lh[x]? with
+    | none =>
+      rw [h1] at hx
+      cases h2 : lh'[x]? with
+      | none => rfl
+      | some _ => rw [h2] at hx; cases hx
+    | some ch =>
+      rw [h1] at hx
+      cases h2 : lh'[x]? with
+      | none => rw [h2] at hx; cases hx
+      | some ch' =>
+        rw [h2] at hx
+        simp only [Option.map_some, Option.some.injEq] at hx
+        simp only [hx, ih]
+
+theorem HdLt_congr {lh lh' : LHeap} {k0 x : Nat} (h : (lh'[x]?).map (·.key) = (lh[x]?).map (·.key))
+    (hl : HdLt lh k0 x) : HdLt lh' k0 x := by
+  obtain ⟨c0, ⟨ch, ct, h1, h2⟩, h3⟩ := hl
+  rw [h1] at h
+  cases h4 : lh'[x]? with
+  | none => rw [h4] at h; cases h
+  | some ch' =>
+    rw [h4] at h
+    simp only [Option.map_some, Option.some.injEq] at h
+    exact ⟨c0, ⟨ch', ct, h4, h.trans h2⟩, h3⟩
+
+/-! ### one step of `findL` -/
+
+def descend (f : Nat) (lh : LHeap) (key : Key) : Hit → Res (Option LN)
+  | .none => .ok none
+  | .before _ => .ok none
+  | .panic => .panic
+  | .stuck => .stuck
+  | .at _ c j =>
+    match lh[c]? with
+    | none => .stuck
+    | some ch =>
+      if j = min ch.key.length key.length then
+        if key.length = ch.key.length then .ok (some ch)
+        else if key.length > ch.key.length then findL f lh c (key.drop j)
+        else .ok none
+      else .ok none
+
+theorem findL_succ {lh : LHeap} {cur : Nat} {n : LN} (h : lh[cur]? = some n) (f : Nat) (key : Key) :
+    findL (f + 1) lh cur key = descend f lh key (scanL lh key n.kids 0) := by
+  rw [findL, h]
+  simp only
+  cases scanL lh key n.kids 0 <;> rfl
+
+
+theorem scanL_at_mem {lh : LHeap} {key : Key} : ∀ {ks : List Nat} {i i' c j : Nat},
+    scanL lh key ks i = .at i' c j → c ∈ ks
+  | [], _, _, _, _, h => by simp [scanL] at h
+  | x :: cs, i, i', c, j, h => by
+    unfold scanL at h
+    split at h
+    · cases h
+    · simp only at h
+      split at h
+      · split at h
+        · split at h
+          · cases h
+          · exact List.mem_cons_of_mem _ (scanL_at_mem h)
+        · cases h
+      · cases h; exact List.mem_cons_self
+
+/-! ### well-formed logical heaps -/
+
+/-- `full id` is the absolute key prefix at which node `id` sits — the same in every trie that shares
+    the node; all keys have length `L` -/
+structure LOk (L : Nat) (lh : LHeap) (full : Nat → Key) : Prop where
+  kid : ∀ (id : Nat) (n : LN) (c : Nat), lh[id]? = some n → c ∈ n.kids →
+      ∃ nc, lh[c]? = some nc ∧ nc.key ≠ [] ∧ full c = full id ++ nc.key
+  depth : ∀ (id : Nat) (n : LN), lh[id]? = some n → (full id).length ≤ L
+
+theorem LOk.kidsValid {L : Nat} {lh : LHeap} {full : Nat → Key} (hok : LOk L lh full) {id : Nat} {n : LN}
+    (hn : lh[id]? = some n) : KidsValid lh n.kids := by
+  intro x hx
+  obtain ⟨nc, h1, h2, _⟩ := hok.kid id n x hn hx
+  cases hk : nc.key with
+  | nil => exact absurd hk h2
+  | cons c0 ct => exact ⟨c0, nc, ct, h1, hk⟩
+
+/-- lookups that start inside a set of nodes closed under children only depend on those nodes -/
+theorem findL_frame {lh lh' : LHeap} (Q : Nat → Prop)
+    (hclosed : ∀ (id : Nat) (n : LN) (c : Nat), Q id → lh[id]? = some n → c ∈ n.kids → Q c)
+    (hsame : ∀ id, Q id → lh'[id]? = lh[id]?) :
+    ∀ (f id : Nat) (s : Key), Q id → findL f lh' id s = findL f lh id s
+  | 0, _, _, _ => rfl
+  | f + 1, id, s, hq => by
+    unfold findL
+    rw [hsame id hq]
+    cases hn : lh[id]? with
+    | none => rfl
+    | some n =>
+      simp only
+      have hsc : scanL lh' s n.kids 0 = scanL lh s n.kids 0 :=
+        scanL_congr s n.kids 0 (fun x hx => by rw [hsame x (hclosed id n x hq hn hx)])
+      rw [hsc]
+      cases hh : scanL lh s n.kids 0 with
+      | none => rfl
+      | before i => rfl
+      | panic => rfl
+      | stuck => rfl
+      | «at» i c j =>
+        simp only
+        have hqc : Q c := hclosed id n c hq hn (scanL_at_mem hh)
+        rw [hsame c hqc]
+        cases hc : lh[c]? with
+        | none => rfl
+        | some ch =>
+          simp only
+          rw [findL_frame Q hclosed hsame f c (s.drop j) hqc]
+
+theorem findE_frame {lh lh' : LHeap} (Q : Nat → Prop)
+    (hclosed : ∀ (id : Nat) (n : LN) (c : Nat), Q id → lh[id]? = some n → c ∈ n.kids → Q c)
+    (hsame : ∀ id, Q id → lh'[id]? = lh[id]?) (f id : Nat) (s : Key) (hq : Q id) :
+    findE f lh' id s = findE f lh id s := by
+  unfold findE; rw [findL_frame Q hclosed hsame f id s hq]
+
+
+/-! ### fuel independence, canonical lookup -/
+
+theorem scanL_at_pos {lh : LHeap} {key : Key} : ∀ {ks : List Nat} {i i' c j : Nat},
+    scanL lh key ks i = .at i' c j → 0 < j
+  | [], _, _, _, _, h => by simp [scanL] at h
+  | x :: cs, i, i', c, j, h => by
+    unfold scanL at h
+    split at h
+    · cases h
+    · simp only at h
+      split at h
+      · split at h
+        · split at h
+          · cases h
+          · exact scanL_at_pos h
+        · cases h
+      · rename_i hne
+        cases h; omega
+
+theorem findL_fuel {lh : LHeap} : ∀ (f f' id : Nat) (s : Key), s.length < f → s.length < f' →
+    findL f lh id s = findL f' lh id s
+  | 0, _, _, _, h, _ => by omega
+  | _ + 1, 0, _, _, _, h => by omega
+  | f + 1, f' + 1, id, s, h1, h2 => by
+    unfold findL
+    cases hn : lh[id]? with
+    | none => rfl
+    | some n =>
+      simp only
+      cases hh : scanL lh s n.kids 0 with
+      | none => rfl
+      | before i => rfl
+      | panic => rfl
+      | stuck => rfl
+      | «at» i c j =>
+        simp only
+        have hj := scanL_at_pos hh
+        cases hc : lh[c]? with
+        | none => rfl
+        | some ch =>
+          simp only
+          by_cases e1 : j = min ch.key.length s.length
+          · simp only [e1, if_true]
+            by_cases e2 : s.length = ch.key.length
+            · simp only [e2, if_true]
+            · simp only [e2, if_false]
+              by_cases e3 : s.length > ch.key.length
+              · simp only [e3, if_true]
+                have : (s.drop (min ch.key.length s.length)).length < s.length := by
+                  simp only [List.length_drop]; omega
+                exact findL_fuel f f' c _ (by omega) (by omega)
+              · simp only [e3, if_false]
+          · simp only [e1, if_false]
+
+/-- lookup with the canonical fuel -/
+def look (lh : LHeap) (id : Nat) (s : Key) : Res (Option LN) := findL (s.length + 1) lh id s
+
+theorem findL_eq_look {lh : LHeap} {f id : Nat} {s : Key} (h : s.length < f) : findL f lh id s = look lh id s :=
+  findL_fuel f (s.length + 1) id s h (Nat.lt_succ_self _)
+
+def desc1 (lh : LHeap) (key : Key) : Hit → Res (Option LN)
+  | .none => .ok none
+  | .before _ => .ok none
+  | .panic => .panic
+  | .stuck => .stuck
+  | .at _ c j =>
+    match lh[c]? with
+    | none => .stuck
+    | some ch =>
+      if j = min ch.key.length key.length then
+        if key.length = ch.key.length then .ok (some ch)
+        else if key.length > ch.key.length then look lh c (key.drop j)
+        else .ok none
+      else .ok none
+
+theorem look_step {lh : LHeap} {id : Nat} {n : LN} (h : lh[id]? = some n) (s : Key) :
+    look lh id s = desc1 lh s (scanL lh s n.kids 0) := by
+  unfold look
+  rw [findL_succ h]
+  cases hh : scanL lh s n.kids 0 with
+  | none => rfl
+  | before i => rfl
+  | panic => rfl
+  | stuck => rfl
+  | «at» i c j =>
+    have hj := scanL_at_pos hh
+    simp only [descend, desc1]
+    cases hc : lh[c]? with
+    | none => rfl
+    | some ch =>
+      simp only
+      by_cases e1 : j = min ch.key.length s.length
+      · simp only [e1, if_true]
+        by_cases e2 : s.length = ch.key.length
+        · simp only [e2, if_true]
+        · simp only [e2, if_false]
+          by_cases e3 : s.length > ch.key.length
+          · simp only [e3, if_true]
+            apply findL_eq_look
+            simp only [List.length_drop]; omega
+          · simp only [e3, if_false]
+      · simp only [e1, if_false]
+
+theorem look_none {lh : LHeap} {id : Nat} (h : lh[id]? = none) (s : Key) : look lh id s = .stuck := by
+  unfold look findL; rw [h]
+
+theorem look_frame {lh lh' : LHeap} (Q : Nat → Prop)
+    (hclosed : ∀ (id : Nat) (n : LN) (c : Nat), Q id → lh[id]? = some n → c ∈ n.kids → Q c)
+    (hsame : ∀ id, Q id → lh'[id]? = lh[id]?) (id : Nat) (s : Key) (hq : Q id) :
+    look lh' id s = look lh id s :=
+  findL_frame Q hclosed hsame _ id s hq
+
+theorem scanL_append {lh : LHeap} (key : Key) : ∀ (a b : List Nat) (i : Nat),
+    scanL lh key (a ++ b) i = match scanL lh key a i with
+      | .none => scanL lh key b (i + a.length)
+      | r => r
+  | [], b, i => by simp [scanL]
+  | x :: a, b, i => by
+    rw [List.cons_append, scanL, scanL]
+    cases hx : lh[x]? with
+    | none => rfl
+    | some ch =>
+      simp only
+      have ih := scanL_append (lh := lh) key a b (i + 1)
+      have hi : i + 1 + a.length = i + (a.length + 1) := by omega
+      rw [hi] at ih
+      by_cases e : lcp ch.key key = 0
+      · simp only [e, if_true]
+        split
+        · split
+          · rfl
+          · rw [ih]
+            simp only [List.length_cons]
+        · rfl
+      · simp only [e, if_false]
+
+/-- `desc1` does not look at the position reported by the scan -/
+theorem desc1_scan_index {lh lhs : LHeap} (key : Key) : ∀ (ks : List Nat) (i i' : Nat),
+    desc1 lh key (scanL lhs key ks i) = desc1 lh key (scanL lhs key ks i')
+  | [], _, _ => rfl
+  | x :: cs, i, i' => by
+    unfold scanL
+    cases hx : lhs[x]? with
+    | none => rfl
+    | some ch =>
+      simp only
+      have ih := desc1_scan_index (lh := lh) (lhs := lhs) key cs (i + 1) (i' + 1)
+      by_cases e : lcp ch.key key = 0
+      · simp only [e, if_true]
+        split
+        · split
+          · rfl
+          · exact ih
+        · rfl
+      · simp only [e, if_false]
+        rfl
+
 end LemoProofs.CowHeapL
